@@ -792,6 +792,12 @@ impl ErasedNode for Node {
             return false;
         };
 
+        /* Recomputing [parent] right away jumps the queue. The height comparisons below only
+        show that [parent]'s scope (or its "_change" child) was stable *if everything lower
+        than [child] has already been processed*, which is not the case when [child] itself
+        was recomputed directly while lower nodes were still waiting in the recompute heap.
+        So we also require that the node we are relying on sits below everything pending. */
+        let min_height = state.recompute_heap.min_height();
         let can_recompute_now = match parent_kind {
             // these nodes aren't parents
             Kind::Constant(_) | Kind::Var(_) => panic!(),
@@ -807,9 +813,9 @@ impl ErasedNode for Node {
             before computing it.  If [parent] has a single child (i.e. [node]), then
             this amounts to checking that [parent] won't be invalidated, i.e. that
             [parent]'s scope has already stabilized. */
-            Kind::BindLhsChange { .. } => child.height() > parent.created_in.height(),
-            Kind::MapRef(_) | Kind::MapWithOld(_) | Kind::Map(_) => {
-                child.height() > parent.created_in.height()
+            Kind::BindLhsChange { .. } | Kind::MapRef(_) | Kind::MapWithOld(_) | Kind::Map(_) => {
+                let scope_height = parent.created_in.height();
+                child.height() > scope_height && scope_height < min_height
             }
             // | Freeze _ -> node.height > Scope.height parent.created_in
             // | If_test_change _ -> node.height > Scope.height parent.created_in
@@ -822,11 +828,13 @@ impl ErasedNode for Node {
             {[
             node.height > Scope.height parent.created_in
             ]} */
-            Kind::BindMain { lhs_change, .. } => child.height() > lhs_change.height(),
+            Kind::BindMain { lhs_change, .. } => {
+                child.height() > lhs_change.height() && lhs_change.height() < min_height
+            }
             // | Kind::If_then_else i -> node.height > i.test_change.height
             // | Join_main j -> node.height > j.lhs_change.height
         };
-        if can_recompute_now || parent.height() <= state.recompute_heap.min_height() {
+        if can_recompute_now || parent.height() <= min_height {
             /* If [parent.height] is [<=] the height of all nodes in the recompute heap
             (possibly because the recompute heap is empty), then we can recompute
             [parent] immediately and save adding it to and then removing it from the
